@@ -53,6 +53,8 @@ SPEC = {
 # plain re-wrappings (no function argument): lowered as well, so that `x.ok()` / `x.unwrap_or(d)` and the match they abbreviate are one form
 PLAIN = {
     O + "unwrap_or": ("opt", {0: ("arg", 1), 1: ("payload",)}),
+    O + "or": ("opt", {0: ("arg", 1), 1: ("rewrap", OPT, "Some", 1)}),
+    O + "and": ("opt", {0: ("variant", OPT, "None", 0), 1: ("arg", 1)}),
     O + "ok_or": ("opt", {0: ("argwrap", 1, (RES, "Err", 1)), 1: ("rewrap", RES, "Ok", 0)}),
     R + "unwrap_or": ("res", {0: ("payload",), 1: ("arg", 1)}),
 }
